@@ -660,7 +660,7 @@ func (e *SpecEnv) call(n *ECall) SV {
 					p = SlcArr(p)
 				}
 				return SV{T: Or(IsNil(p), Lt(PObjID(p), e.h.nextID(e.st))), Ty: tBool}
-			case "iter", "idx", "visited":
+			case "iter", "idx", "visited", "curkey":
 				if e.ft == nil || len(n.Args) != 1 {
 					sfail("%s(n) needs a loop ordinal", id.Name)
 				}
@@ -685,6 +685,13 @@ func (e *SpecEnv) call(n *ECall) SV {
 						sfail("loop %d is not an index range loop", ord)
 					}
 					return SV{T: e.ft.localGet(e.st, l.RangeIdx), Ty: tInt}
+				case "curkey":
+					// the key of the current iteration of map range loop n (already a member of visited(n))
+					if l.RangeIter == nil {
+						sfail("loop %d is not a map range loop", ord)
+					}
+					mt := l.RangeIter.X.Type().Underlying().(*types.Map)
+					return SV{T: e.h.ghostVar(e.st, iterKeyName(l.RangeIter), e.w.sortOf(e.h.d, mt.Key())), Ty: mt.Key()}
 				default:
 					if l.RangeIter == nil {
 						sfail("loop %d is not a map range loop", ord)
@@ -737,6 +744,25 @@ func (e *SpecEnv) call(n *ECall) SV {
 				return e.heldCall(n, false)
 			case "heldR":
 				return e.heldCall(n, true)
+			case "lockframe":
+				// lockframe(m1, ...): the lock state changed at most at the listed mutexes (w.r.t. old)
+				q := &Term{"lq", SPtr}
+				var conds []*Term
+				for _, a := range n.Args {
+					x := e.tr(a)
+					var addr *Term
+					if x.Addr != nil {
+						addr = x.Addr
+					} else if _, ok := x.Ty.Underlying().(*types.Pointer); ok {
+						addr = e.val(x)
+					} else {
+						sfail("lockframe: not a mutex location")
+					}
+					conds = append(conds, Not(Eq(q, addr)))
+				}
+				cur := e.h.ghostVar(e.st, "$held", SArray(SPtr, SInt))
+				was := e.h.ghostVar(e.old, "$held", SArray(SPtr, SInt))
+				return SV{T: Forall([]Bound{{"lq", SPtr}}, Implies(And(conds...), Eq(Select(cur, q), Select(was, q))), []*Term{Select(cur, q)}), Ty: tBool}
 			case "lockstate":
 				// lockstate(m): 0 free, 1 read-locked, 2 write-locked (by the executing thread)
 				x := e.tr(n.Args[0])
